@@ -12,7 +12,7 @@ VERIF = Path(__file__).resolve().parents[1]
 REPO = Path(os.environ.get('HOMONIM_REPO', '/repo'))
 OUT = VERIF / 'coq' / 'gen' / 'BandsGen.v'
 sys.path.insert(0, str(VERIF))
-from translate.resolve import Flow, namedtuples      # noqa: E402
+from translate.resolve import Flow, namedtuples, parse_source      # noqa: E402
 
 
 class TranslatorError(Exception):
@@ -24,7 +24,7 @@ def U(n):
 
 
 def generate():
-    mp = ast.parse((REPO / 'homonim' / 'matched_pair.py').read_text())
+    mp = parse_source((REPO / 'homonim' / 'matched_pair.py').read_text())
     cls = [n for n in mp.body if isinstance(n, ast.ClassDef) and n.name == 'MatchedPairReader'][0]
     f = [n for n in cls.body if isinstance(n, ast.FunctionDef) and n.name == '_match_pair_bands'][0]
     fl = Flow(f)
